@@ -689,7 +689,11 @@ class Rechunk(ArrayExpr):
         # ``tokenize`` on any pickling failure.
         try:
             non_array = [self.operand(p) for p in self._parameters if p != "array"]
-            return "rechunk-merge-rc1" + hash_buffer_hex(_dumps5((self.array._name, *non_array)))
+            array_ref = self.array._name
+            if "_name_is_exact" in self.array._parameters and self.array.operand("_name_is_exact"):
+                # an exact (user-supplied) name does not identify the data
+                array_ref = (array_ref, self.array.deterministic_token)
+            return "rechunk-merge-rc1" + hash_buffer_hex(_dumps5((array_ref, *non_array)))
         except Exception:
             return "rechunk-merge-" + tokenize(*self.operands)
 
